@@ -61,6 +61,8 @@ class Renderer:
             return '<img src="%s" alt="%s"%s />' % (n.url, n.alt, (' title="%s"' % n.title) if n.title else '')
         if k == 'break':
             return '<br />\n'
+        if k == 'soft':
+            return '\n'
         if k == 'esc':
             return esc(n.c)
         if k == 'entity':
